@@ -3,5 +3,5 @@ CONSTANTS
   MaxDepth = 2
 INIT Init
 NEXT Next
-INVARIANTS RoundTrip Idempotent MeaningKept
+INVARIANTS RoundTrip Idempotent MeaningKept ParserNormal
 CHECK_DEADLOCK FALSE
